@@ -111,7 +111,7 @@ def even_length(value):
 
 def judge(ctx, sut, element, schema, root, value, route, tag):
     """Compare the real outcome of one call with the model's verdict set."""
-    allowed = refmodel.verdicts(schema, value, root, curated=gv.CURATED, custom=CUSTOM_FORMATS)
+    allowed = refmodel.verdicts(schema, value, root, curated=gv.CURATED, custom=CUSTOM_FORMATS, ecma=True)
     value_before = canon(value)
     outcome, _result, exc = sut.call(element, value)
     ctx.evaluation()
@@ -150,7 +150,7 @@ def judge(ctx, sut, element, schema, root, value, route, tag):
             reduced = {k: v for k, v in schema.items() if k != key}
             try:
                 other = refmodel.verdicts(reduced, value, root if root is not schema else reduced,
-                                          curated=gv.CURATED, custom=CUSTOM_FORMATS)
+                                          curated=gv.CURATED, custom=CUSTOM_FORMATS, ecma=True)
             except Exception:  # pylint: disable=broad-except
                 continue
             if other == {not want}:
@@ -176,6 +176,19 @@ def judge(ctx, sut, element, schema, root, value, route, tag):
     # mismatch: ask the second opinion unless a deviation makes it inapplicable
     second = None
     text = json.dumps(root, default=repr)
+    # is this a case on which the regex DIALECT decides?  (the model read with Python's `re` instead of
+    # ECMA 262 says something else) - then the second opinion, itself built on `re`, is no opinion, and a
+    # verdict equal to the Python-dialect one is known finding F41
+    dialect = refmodel.verdicts(schema, value, root, curated=gv.CURATED, custom=CUSTOM_FORMATS, ecma=False)
+    if dialect != allowed:
+        ctx.witness(
+            "accepts_invalid" if got else "rejects_valid",
+            {"schema": root, "value": value, "route": route, "template": tag},
+            f"statham={'accept' if got else 'reject'}({outcome}) model(ECMA 262 patterns)="
+            f"{'valid' if want else 'invalid'} model(Python re patterns)={sorted(dialect)}",
+            finding="F41" if got in dialect else None,
+        )
+        return got
     if "format" not in text and not has_float_integer(value) and '"default"' not in text:
         doc = schema if root is schema else {**schema, "definitions": root.get("definitions", {})}
         second = js_verdict(doc, value)
